@@ -2,7 +2,8 @@
 //!
 //! Correspondence (Lean `Model/Fmt.lean`): integer literal printing in every `IntFormat`, string
 //! literal printing / unescaping, the literal fragment of the grammar (`parse::<Expr>` on
-//! literal-like texts) and the token level of the lexer.
+//! literal-like texts) and the token level of the lexer.  Expression layer (Lean
+//! `Model/FmtExpr.lean`): see `c08_expr.rs`.
 //! Search: ASTs from (1) grammar-directed generated source text through the real parser and
 //! (2) the decompiler (generated + bundled binaries, random options, user intrinsics) are printed
 //! at many widths, parsed back, compared structurally, printed again.
@@ -38,7 +39,7 @@ pub const PARSER_PANIC: &str = "PARSER-PANIC: ";
 /// A panic of the parser becomes `Err("PARSER-PANIC: message")`: on generated *source* text it is a
 /// rejected input (crashes on text input belong to C04), on *printed* text it is a failure of C08
 /// under a signature that does not depend on the build directory.
-fn parse_fresh<A>(text: &str) -> Result<A, String>
+pub(super) fn parse_fresh<A>(text: &str) -> Result<A, String>
 where A: truth::parse::Parse, Sp<A>: ast::Visitable {
     match std::panic::catch_unwind(std::panic::AssertUnwindSafe(|| parse_unguarded::<A>(text))) {
         Ok(r) => r,
@@ -515,11 +516,11 @@ const STRINGS_SRC: &[&str] = &[
 ];
 const DIFF_STRINGS: &[&str] = &["EN", "HL", "*", "E", "NHL", "ENHL", "-", "4567", "O"];
 
-struct SrcGen<'a> { rng: &'a mut Rng, label_n: usize, big_ints: bool }
+pub(super) struct SrcGen<'a> { rng: &'a mut Rng, label_n: usize, big_ints: bool }
 
 impl<'a> SrcGen<'a> {
     /// one file in four contains integer literals >= 2^31 (negative values: known finding "gains parens")
-    fn new(rng: &'a mut Rng) -> Self { let big_ints = rng.chance(1, 4); SrcGen { rng, label_n: 0, big_ints } }
+    pub(super) fn new(rng: &'a mut Rng) -> Self { let big_ints = rng.chance(1, 4); SrcGen { rng, label_n: 0, big_ints } }
     fn safe_ident(&mut self) -> String { self.rng.pick(SAFE_IDENTS).to_string() }
     fn ident(&mut self) -> String { if self.rng.chance(1, 4) { self.rng.pick(RISKY_IDENTS).to_string() } else { self.safe_ident() } }
 
@@ -656,7 +657,7 @@ impl<'a> SrcGen<'a> {
     /// In the main stream every unary `-`/`!` operand made by `expr` is guarded, but nested
     /// parentheses can still expose an unguarded atom (`-((0xffffffff))`); the oracle classifies
     /// those by inspecting the AST, so they only cost a case.
-    fn any_expr(&mut self, d: u32) -> String { self.expr(d).t }
+    pub(super) fn any_expr(&mut self, d: u32) -> String { self.expr(d).t }
 
     fn meta_value(&mut self, d: u32) -> String {
         match if d == 0 { 0 } else { self.rng.below(7) } {
@@ -886,7 +887,7 @@ fn eval_lexint(text: &str) -> Sexp {
     }
 }
 
-fn eval_lex(text: &str) -> Sexp {
+pub(super) fn eval_lex(text: &str) -> Sexp {
     use truth::parse::lexer::{Lexer, Token};
     let src = truth::pos::SourceStr::from_full_source(None, text);
     let mut toks = vec![];
@@ -998,18 +999,19 @@ fn pick_widths(tier: Tier, rng: &mut Rng, big: bool) -> Vec<usize> {
 
 const LEX_ALPHABET: &[&str] = &["0", "1", "4", "7", "9", "x", "X", "b", "B", "a", "f", "F", "E", "N", "Z", "O", "e", "_", "-", "-", "!", "~", "+", "=", "<", ">", "&", "|", ".", " ", "\"", "\\", "*", "%", "$", "(", ")", ":", "?", ",", "n", "\n", "0x", "0b", "--", "!=", "ins_", ">>>", "..", "#", "@", ";", "{", "}", "[", "]", "^", "\u{3042}", "\t"];
 
-fn lex_text_ok(t: &str) -> bool { !t.contains("//") && !t.contains("/*") && !t.contains("rad(") }
+pub(super) fn lex_text_ok(t: &str) -> bool { !t.contains("//") && !t.contains("/*") && !t.contains("rad(") }
 
 impl Prop for C08 {
     fn id(&self) -> &'static str { "C08" }
     fn relation(&self) -> &'static str {
-        "text of fmt::stringify on ast::Expr::LitInt in every IntFormat == Lean `Fmt.printInt`; text of ast::LitString == `Fmt.escapeString`; parse::<LitString> == `Fmt.parseStringLiteral` after `Fmt.lex`; parse::<Expr> of literal-like text (value after sign folding / bad integer literal / other) == `Fmt.evalLiteral`; token stream of parse::lexer::Lexer == `Fmt.lex`; text of stringify_with(nested meta arrays, max_columns(w)) == `Fmt.render w`"
+        "text of fmt::stringify on ast::Expr::LitInt in every IntFormat == Lean `Fmt.printInt`; text of ast::LitString == `Fmt.escapeString`; parse::<LitString> == `Fmt.parseStringLiteral` after `Fmt.lex`; parse::<Expr> of literal-like text (value after sign folding / bad integer literal / other) == `Fmt.evalLiteral`; token stream of parse::lexer::Lexer == `Fmt.lex`; text of stringify_with(nested meta arrays, max_columns(w)) == `Fmt.render w`; EXPRESSION LAYER (Model/FmtExpr.lean): text of stringify_with(ast::Expr, unlimited width) == `FmtExpr.printText`; text of stringify_with(ast::Expr, max_columns(w)) == `FmtExpr.renderExpr w` (inline/block argument lists); real lexer on that text (trailing commas dropped) == the tokens `FmtExpr.printExpr` (hypothesis LexOK of expr_print_parse_text) where `NoGlue` holds and `Fmt.lex (printText e)` elsewhere; parse::<ast::Expr>(text) as canonical tree or reject == `FmtExpr.parseText`"
     }
     fn rule(&self) -> &'static str {
-        "model-compared: every (signed, radix) x boundary and random i32; strings over NUL, quotes, backslashes, CR/LF, controls, multi-byte; literal texts (dec/hex/bin, prefixes, overflow, signs, glue shapes); random token soups and printed scripts for the lexer; nested lists of atoms of random shapes at widths 1..200 for the inline/block layout. Search: grammar-directed generated source text over the full item/statement/expression/meta grammar (all operators, casts, sigils, ternary, difficulty switches with holes, pseudo-args, labels, gotos with times, label properties, loops, conditionals, interrupt labels, const items, nested meta, string escapes, multi-byte text, extreme ints in dec/hex/bin, extreme floats) parsed by the real parser; decompiler output of compiled generated sources of every format/game and of all bundled binaries under random decompile options (incl. --show-instr-offsets), and of TH06 ECL with user unary/binary intrinsics on immediates; each AST printed at widths {1,5,17,40,80,99,200} (thorough: 1..200), parsed back (must parse), compared structurally after sign folding with formatter hints ignored (must be equal), printed again (must be the same text); float literals over all exponents x mantissa {0,1,mid,max}, subnormals, +-0, +-inf and random bit patterns must read back with the same bits, NaN payloads reported separately. Shapes of the known defects (unary operator glued to its operand, negative literal gaining parentheses, negative meta key) are confined to dedicated streams and classified by inspecting the AST. non-trivial = the source parses / the binary decompiles; distinct by case text"
+        "model-compared: every (signed, radix) x boundary and random i32; strings over NUL, quotes, backslashes, CR/LF, controls, multi-byte; literal texts (dec/hex/bin, prefixes, overflow, signs, glue shapes); random token soups and printed scripts for the lexer; nested lists of atoms of random shapes at widths 1..200 for the inline/block layout; expression ASTs (all 19 binary and 14 unary operators, ternary, difficulty switches with holes, calls with pseudo-args, xcrement, sigils, REG[n], enum constants, label properties, every int format, floats incl. -0/inf/nan, strings with escapes; with and without the glue shapes; also shapes only the formatter accepts) printed at unlimited and narrow widths, their printed text parsed, the parsed tree printed again; every ordered pair of binary operators in both groupings and as bare `a op1 b op2 c`; associativity chains; ternary-vs-switch texts; each prefix operator in front of every kind of atom with and without a space; grammar-directed expression source (all literal spellings, spacing, trailing commas); token soups; printed text with one token dropped/duplicated/swapped. Search: grammar-directed generated source text over the full item/statement/expression/meta grammar (all operators, casts, sigils, ternary, difficulty switches with holes, pseudo-args, labels, gotos with times, label properties, loops, conditionals, interrupt labels, const items, nested meta, string escapes, multi-byte text, extreme ints in dec/hex/bin, extreme floats) parsed by the real parser; decompiler output of compiled generated sources of every format/game and of all bundled binaries under random decompile options (incl. --show-instr-offsets), and of TH06 ECL with user unary/binary intrinsics on immediates; each AST printed at widths {1,5,17,40,80,99,200} (thorough: 1..200), parsed back (must parse), compared structurally after sign folding with formatter hints ignored (must be equal), printed again (must be the same text); float literals over all exponents x mantissa {0,1,mid,max}, subnormals, +-0, +-inf and random bit patterns must read back with the same bits, NaN payloads reported separately. Shapes of the known defects (unary operator glued to its operand, negative literal gaining parentheses, negative meta key) are confined to dedicated streams and classified by inspecting the AST. non-trivial = the source parses / the binary decompiles; distinct by case text"
     }
     fn theorems(&self) -> &'static [&'static str] {
-        &["TruthModel.C08.int_print_parse", "TruthModel.C08.string_escape_roundtrip", "TruthModel.C08.string_print_lex_parse", "TruthModel.C08.printInt_head_minus_iff", "TruthModel.C08.unary_glue_minus", "TruthModel.C08.unary_glue_not", "TruthModel.C08.layout_tokens"]
+        &["TruthModel.C08.int_print_parse", "TruthModel.C08.string_escape_roundtrip", "TruthModel.C08.string_print_lex_parse", "TruthModel.C08.printInt_head_minus_iff", "TruthModel.C08.unary_glue_minus", "TruthModel.C08.unary_glue_not", "TruthModel.C08.layout_tokens",
+          "TruthModel.C08.expr_print_parse", "TruthModel.C08.expr_print_parse_sup", "TruthModel.C08.expr_print_parse_text", "TruthModel.C08.expr_print_idempotent", "TruthModel.C08.expr_print_parse_print", "TruthModel.C08.expr_layout_tokens", "TruthModel.C08.expr_layout_printExpr", "TruthModel.C08.glue_sites_fail"]
     }
     fn timeout_secs(&self) -> u64 { 120 }
 
@@ -1093,6 +1095,9 @@ impl Prop for C08 {
             out.push(Case::corr(Sexp::app("layout", vec![Sexp::int(w as i64), d])).tag("layout").trivial(trivial));
         }
 
+        // ---- model-compared: the expression layer (printer, parser, precedence)
+        super::c08_expr::gen(tier, rng, &mut out);
+
         // ---- search: float literals
         let mut fbits: Vec<u32> = vec![];
         for sign in [0u32, 1] { for exp in 0..=255u32 { for man in [0u32, 1, 0x40_0000, 0x7f_ffff, 0x2a_aaaa] { fbits.push(sign << 31 | exp << 23 | man); } } }
@@ -1146,6 +1151,7 @@ impl Prop for C08 {
     }
 
     fn eval(&self, case: &Sexp) -> Sexp {
+        if let Some(r) = super::c08_expr::eval(case) { return r; }
         let a = case.args();
         match case.head() {
             Some("pint") => {
